@@ -66,7 +66,8 @@ def run(r):
         # typed acceptance analysis last: structural findings above take precedence over an untypable candidate generator
         for label, st, sa, sb, policy, eq in sites:
             rep.analysed(st.q)
-            check_site_ext(r, "C01", nn, st, mode, sa, sb, "never", eq, f"site{st.line}")
+            # self mode: pairs are drawn as combinations of distinct positions; an explicit i != j filter on top of that is redundant, not wrong
+            check_site_ext(r, "C01", nn, st, mode, sa, sb, policy, eq, f"site{st.line}")
             n += 1
     rep.require(n >= 4, f"C01: {n} self-mode site x mode instances, floor is 4")
 
